@@ -294,6 +294,24 @@ def chunk_derive(chunk, acc):
             acc.case(("decoder", r, label), outcome=d[:4])
             if got != exp + exp:
                 acc.fail("C06/derive/decoder-keys/" + label, {"kind": "derive", "aes_rand": r.hex()}, [e.hex() for e in exp], got if isinstance(got, str) else [None if g is None else bytes(g).hex() for g in got])
+    # a decoder that holds only the RSA key learns its session keys from the first check-in it decodes - also when
+    # that message is decoded with caller-supplied per-call keys (external session tracking)
+    priv = K.key(1024, 0)
+    for r in seeds[:4]:
+        d = hashlib.sha256(r).digest()
+        m = make_metadata(c2, {"bid": 1234}, b"PC\tu\tp", r)
+        with ScriptedRandom(acc.seed + 9):
+            blob = c2.encrypt_metadata(m, priv.public_key())
+        for label, per_call in (("no-keys-argument", None), ("complete-other-keys", c2.BeaconKeys(other, other[::-1])), ("complete-derived-keys", c2.BeaconKeys(d[:16], d[16:])), ("aes-only", c2.BeaconKeys(other, None))):
+            acc.states += 1
+            acc.transitions += 1
+            dec = c2.C2Http(bconfig, rsa_private_key=priv)
+            req = dec.transform_get.transform(c2.C2Data(metadata=blob), request=c2.HttpRequest(method=dec.get_verb, uri=dec.get_uris[0], params={}, headers={}, body=b""))
+            out = call(lambda: list(dec.iter_recover_http(req, keys=per_call)) if per_call is not None else list(dec.iter_recover_http(req)))
+            got = out if isinstance(out, str) else (len(out), bytes(getattr(out[0], "aes_rand", b"")) if out else None, dec.beacon_keys.aes_key, dec.beacon_keys.hmac_key)
+            acc.case(("session", r, label), outcome=d[:4])
+            if got != (1, r, d[:16], d[16:]):
+                acc.fail("C06/derive/decoder-session-keys/" + label, {"kind": "derive", "aes_rand": r.hex()}, [1, r.hex(), d[:16].hex(), d[16:].hex()], got if isinstance(got, str) else [got[0]] + [None if g is None else bytes(g).hex() for g in got[1:]])
     acc.sample({"aes_rand": RANDS[2].hex(), "aes_key": hashlib.sha256(RANDS[2]).digest()[:16].hex()})
 
 
